@@ -154,6 +154,8 @@ void ds_advance_time(uint64_t ns);
 void ds_yield(int tag); /* explicit schedule point */
 /* the n-th (0-based, counted from the start of the run) pthread_create returns err and creates nothing; n<0: off */
 void ds_inject_create_failure(long n, int err);
+/* the next `count` pthread_create calls made by the CALLING thread fail with err (ties a failure to one launch) */
+void ds_fail_next_create(int count, int err);
 
 size_t ds_event_count(void);
 const struct ds_event *ds_event_at(size_t i);
